@@ -143,7 +143,9 @@ def _distribute_try(computation_graph: ComputationGraph,
             continue
         footprint = computation_memory(n)
         # Candidates : hints only with enough capacity
-        candidates = [(agents_capa[a], a) for a in hints.host_with(n.name)
+        hinted_agents = {var_hosted[c] for c in hints.host_with(n.name)
+                         if c in var_hosted}
+        candidates = [(agents_capa[a], a) for a in sorted(hinted_agents)
                       if agents_capa[a] > footprint]
         # If no hinted agents has enough capacity, fall back to all agents
         if not candidates:
